@@ -54,6 +54,10 @@ func genC11(t *rapid.T) *Case {
 	spec := &Spec{Base: "New"}
 	spec.Ops = append(spec.Ops, nr(Op{Kind: "AllowAttrs", Attrs: []string{"href", "target", "id"}, Scope: "els", Names: []string{"a", "area", "link"}}))
 	relRule := Op{Kind: "AllowAttrs", Attrs: []string{"rel"}, Scope: "els", Names: []string{"a", "area", "link"}, ValRe: -1}
+	if rapid.IntRange(0, 3).Draw(t, "relGlobal") == 0 {
+		// rel (and target) admitted by a global rule only, not by the link elements' own rules
+		relRule = Op{Kind: "AllowAttrs", Attrs: []string{"rel", "target"}, Scope: "global", ValRe: -1}
+	}
 	switch rapid.IntRange(0, 3).Draw(t, "relRule") {
 	case 0:
 		relRule.ValRe = 3 // SpaceSeparatedTokens
